@@ -8,7 +8,7 @@ CONSTANTS TIER, SEEDS, SEED
 VARIABLES mode, n
 vars == <<mode, n>>
 
-TermsQuick == U1 \cup AtomsU0 \cup ImgWithLatePH \cup Sample(U2rSet(0), 12, SEED)
+TermsQuick == U1 \cup AtomsU0 \cup ImgWithLatePH \cup PairCoverSet(0) \cup Sample(U2rSet(0), 12, SEED)
 TermsThorough == U1 \cup AtomsU0 \cup ImgWithLatePH \cup U2rSet(0)
 Cases(k) == IF TIER = "quick"
             THEN {AsTerm(t) : t \in Part(TermsQuick, k, SEEDS)} \cup Part(EnvelopeQuickSet(0) \cup RichEnvelopeSet(0), k, SEEDS)
